@@ -1,7 +1,7 @@
 (* Props/C07.v — property theorems only. *)
 From Coq Require Import List NArith ZArith Bool.
 From N0 Require Import Base.PyStr Base.PyVal Compare.Util Compare.Flags Compare.Match Compare.Model
-  Compare.Spec Compare.WalkLemmas Compare.VerdictProofs Compare.DefaultProofs Compare.ReflProofs Compare.SymProofs.
+  Compare.Spec Compare.WalkLemmas Compare.VerdictProofs Compare.DefaultProofs Compare.ReflProofs Compare.SymProofs Compare.TransProofs.
 Import ListNotations.
 
 (* direct_compare (the ordered walk): for every flag state, every pair of
@@ -110,3 +110,19 @@ Theorem C07_direct_verdict_symmetric :
                 (r1 = [] <-> r2 = []).
 Proof. exact direct_verdict_symmetric. Qed.
 Print Assumptions C07_direct_verdict_symmetric.
+
+(* Transitivity: structural equality chains (with the two theorems above it is an
+   equivalence on trees with distinct keys), and so does the "no difference"
+   verdict of direct_compare. *)
+Theorem C07_structural_equality_transitive :
+  forall a b c, tree_eq a b = true -> tree_eq b c = true -> tree_eq a c = true.
+Proof. exact tree_eq_trans. Qed.
+Print Assumptions C07_structural_equality_transitive.
+
+Theorem C07_direct_no_difference_chains :
+  forall fl o ck a b c,
+  quiet o -> good a -> good b -> good c -> same_kind a b -> same_kind b c ->
+  compare_top fl o MDirect ck a b = Ok [] -> compare_top fl o MDirect ck b c = Ok [] ->
+  compare_top fl o MDirect ck a c = Ok [].
+Proof. exact direct_no_difference_chains. Qed.
+Print Assumptions C07_direct_no_difference_chains.
